@@ -9,6 +9,16 @@ VER = ("int", 0, 255)
 H = "verif.harness.taproot."
 
 
+def INJ(m, env):
+    """setup hook: ask the curve theory for its pairwise instances of  x(a) = x(b) => a = +-b  and
+    (x, y)(a) = (x, y)(b) => a = b  (theories.register_scalar; A-PRIME).  Needed wherever the code re-parses a
+    point from its x-only bytes (ControlBlock.parse, MuSigTapScript.__init__) and then computes with it."""
+    m.curve_injectivity = True
+
+
+INJ.conc = lambda env, glob: None
+
+
 def _rb(rng, n):
     return rand_bytes(rng, n)
 
@@ -261,18 +271,63 @@ for _name, (_shape, _var) in TREES.items():
                        + _sibling_distinct(_shape, _var)),
              ensures=_ens, gen=_gen_tree(_n, _var), tiers=("quick", "thorough") if _n <= 3 else ("thorough",))
 
-# the control block the library builds passes the BIP341 script-path rule, evaluated by the spec on the BYTES
-# (lift_x of the 32 key bytes, Merkle fold over the 32-byte slices, tweak range, x-only key and parity bit)
-for _name in ("tree1", "tree2", "tree3a"):
-    _shape, _var = TREES[_name]
-    _n = _count(_shape)
-    _T = _shape_expr(_shape, _var)
-    _Q = "spec.taproot.output_key(pub, spec.taproot.tree_hash(%s))" % _T
-    contract(H + _name + "#bip341-rule", props=("C12",), nl_uf=True,
-             params=dict({"pub": point}, **{"d%d" % i: D32 for i in range(_n)}),
-             requires=(["spec.taproot.tweak_defined(pub, spec.taproot.tree_hash(%s))" % _T]
-                       + ["d%d != d%d" % (i, j) for i in range(_n) for j in range(_n) if i < j] + _sibling_distinct(_shape, _var)),
-             ensures=["returns()"] + [
-                 "spec.taproot.script_path_commits(spec.taproot.x32(%s), result[1][%d][0], spec.taproot.push_script(d%d, 0xAC)) is True" % (_Q, _i, _i)
-                 for _i in range(_n)],
-             gen=_gen_tree(_n, _var))
+
+# ---------------------------------------------------------------------------- control block codec
+def _gen_cbrt(k):
+    def gen(rng, tier):
+        for t in range(30):
+            d = {"pub": {"__point__": _DS[t] if t < len(_DS) else rng.randrange(1, N)},
+                 "version": rng.choice([0xC0, 0xC2, 0x00, 0xFE, 0x50]), "par": t % 2}
+            for j in range(k):
+                d["h%d" % j] = _rb(rng, 32)
+            yield d
+    return gen
+
+
+# parse(serialize(cb)) gives back the same block: leaf version, parity bit, internal key (x-only: the even-y
+# point), path, bytes; for even leaf versions (BIP341: the low bit of the first byte is the parity)
+for _k in range(3):
+    _hs = ["h%d" % j for j in range(_k)]
+    contract(H + "cb_roundtrip%d" % _k, props=("C12",), nl_uf=True,
+             params=dict({"pub": point, "version": ("int", 0, 255), "par": ("int", 0, 1)}, **{h: H32 for h in _hs}),
+             requires=["version % 2 == 0"],
+             ensures=["returns()",
+                      "result[0] == spec.taproot.control_block_ser(version, par, spec.taproot.x32(pub), [%s])" % ", ".join(_hs),
+                      "len(result[0]) == 33 + 32 * %d" % _k,
+                      "result[1] == version and result[2] == par",
+                      "spec.curve.same(result[3], spec.taproot.even(pub))",
+                      "result[4] == [%s]" % ", ".join(_hs),
+                      "result[5] == result[0]", "result[6] is True"],
+             gen=_gen_cbrt(_k))
+
+contract(H + "parse_xonly_of", props=("C12",), nl_uf=True, params={"pub": point},
+         ensures=["returns()", "spec.curve.same(result, spec.taproot.even(pub))"],
+         gen=lambda rng, tier: ({"pub": {"__point__": d}} for d in _DS + [rng.randrange(1, N) for _ in range(20)]))
+
+
+def _gen_cb_len(rng, tier):
+    for n in (0, 1, 2, 31, 32, 33, 63, 64, 65, 32 * 127, 32 * 128, 32 * 128 + 1, 32 * 129):
+        yield {"first": bytes([rng.choice([0xC0, 0xC1, 0x50])]), "tail": _rb(rng, n)}
+    for _ in range(30):
+        yield {"first": _rb(rng, 1), "tail": _rb(rng, rng.randrange(0, 110))}
+
+
+# BIP341: a control block has 33 + 32m bytes, 0 <= m <= 128; everything else is rejected.  (Stated with the
+# generator point as internal key so that the on-curve test is concrete; arbitrary 32 key bytes: C06 cb_parse_fields.)
+contract(H + "cb_parse_short", props=("C12",), params={"b": ("bytes", 0, 32)},
+         ensures=["raises(ValueError)"], gen=lambda rng, tier: ({"b": _rb(rng, n)} for n in range(33)))
+contract(H + "cb_parse_len_gx", props=("C12",), params={"first": "bytes:1", "tail": ("bytes", 0, 32 * 129 + 5)},
+         ensures=["implies(not spec.taproot.control_block_len_ok(33 + len(tail)), raises(ValueError))",
+                  "implies(returns(), spec.taproot.control_block_len_ok(33 + len(tail)))",
+                  "implies(spec.taproot.control_block_len_ok(33 + len(tail)), returns())",
+                  "implies(returns(), result[0] == len(tail) // 32 and result[1] == first[0] - first[0] % 2 and result[2] == first[0] % 2)",
+                  "implies(returns(), len(result[3]) == 33 + len(tail) and result[3][:33] == first + spec.taproot.GX32)"],
+         gen=_gen_cb_len)
+
+# tamper direction, the part that is not a hash argument: a flipped parity bit is a control block for the same
+# key with the WRONG parity (so the BIP341 rule `c[0] & 1 == parity(Q)` rejects it)
+contract(H + "leaf_cb_parity_flipped", props=("C12",), nl_uf=True, setup=INJ, params={"pub": point, "d0": D32},
+         requires=["spec.taproot.tweak_defined(pub, spec.taproot.tree_hash((0xC0, spec.taproot.push_script(d0, 0xAC))))"],
+         ensures=["returns()", "spec.curve.same(result[0], result[1])", "result[2] != result[0].parity",
+                  "result[2] == 1 - spec.taproot.parity(spec.taproot.output_key(pub, spec.taproot.tree_hash((0xC0, spec.taproot.push_script(d0, 0xAC)))))"],
+         gen=_gen_tree(1, [0]))
